@@ -210,7 +210,7 @@ func TestMutants(t *testing.T) {
 func TestPrograms(t *testing.T) {
 	forceAll = true
 	defer func() { forceAll = false }()
-	harness.Rapid(t, 16000, 800000, func(rt *rapid.T, c *harness.Case) {
+	harness.Rapid(t, 16000, 700000, func(rt *rapid.T, c *harness.Case) {
 		p := treegen.DrawProgram(rt, 25, 64)
 		c.Set("program", p)
 		res := &treegen.Result{}
